@@ -546,13 +546,16 @@ def _run_unit(args):
 _PENDING = []      # (unit index, Obligation, falsifier) -- inherited by the forked workers
 
 
+_RETRY_SCALE = [1]
+
+
 def _discharge_index(i):
     ui, ob, fals = _PENDING[i]
     if os.environ.get('PYVC_TRACE'):
         print('  start %s' % ob.name, file=sys.stderr, flush=True)
         import faulthandler
         faulthandler.dump_traceback_later(int(os.environ.get('PYVC_FAULT_S', '150')), exit=False)
-    r = D.discharge(ob)
+    r = D.discharge(ob, scale=_RETRY_SCALE[0])
     if os.environ.get('PYVC_TRACE'):
         import faulthandler
         faulthandler.cancel_dump_traceback_later()
@@ -631,6 +634,25 @@ def run_property(prop, units, tier, seed, level='proof', assumptions=(), trusted
                 done.append(rr)
     else:
         done = [_discharge_index(i) for i in range(len(_PENDING))]
+    # second chance: an obligation left undecided (solver time-out, e.g. on a loaded machine) is tried once more with
+    # four times the budgets and half the workers; a verdict of the first pass is never revisited
+    again = [i for i, (ui, r) in enumerate(done) if r.get('status') == 'unknown']
+    if again and not os.environ.get('PYVC_NO_RETRY'):
+        _RETRY_SCALE[0] = 4
+        try:
+            if procs > 1 and len(again) > 1:
+                from . import pool as _pool
+                idx = list(again)
+                raw2 = _pool.run(len(idx), lambda j: _discharge_index(idx[j]), max(2, procs // 2),
+                                 4 * int(os.environ.get('PYVC_TASK_TIMEOUT_S', '420')))
+            else:
+                raw2 = [_discharge_index(i) for i in again]
+            for i, rr in zip(again, raw2):
+                if isinstance(rr, tuple) and rr[1].get('status') in ('discharged', 'refuted'):
+                    rr[1]['detail'] = (rr[1].get('detail', '') + '; decided on the second pass (4x budgets)').strip('; ')
+                    done[i] = rr
+        finally:
+            _RETRY_SCALE[0] = 1
     for ui, r in done:
         results[ui]['obligations'].append(r)
         if os.environ.get('PYVC_VERBOSE') and r.get('seconds', 0) > 3:
